@@ -38,6 +38,8 @@ ASSUMPTIONS = [
 ]
 
 STANDARD = ("plain", "gz", "json", "phylip")
+# PermissionError (EACCES, EPERM), FileExistsError, FileNotFoundError, IsADirectoryError and plain OSError flavours
+ERRNOS = ["EACCES", "EPERM", "EEXIST", "ENOENT", "EISDIR", "ENOSPC", "EXDEV", "EBUSY"]
 WRITERS_ALL = ["aln", "arrayaln", "seqcoll", "newcoll", "tree", "table", "dictarray", "treecoll", "atomic"]
 
 
@@ -142,6 +144,13 @@ def _collect(ctx, cfg):
         data["kills"][k] = srv.job(kind="write", writer=w, target=t, present=present, mode="kill", k=k, workdir=wd)
     for k in range(n):
         data["faults"][k] = srv.job(kind="write", writer=w, target=t, present=present, mode="fault", k=k, workdir=wd)
+    # the same with other errno values / OSError subclasses: all of them at the calls that touch the destination, a rotating one elsewhere
+    data["faults_errno"] = {}
+    for k in range(n):
+        commit_call = tr[k][0] in ("unlink", "rename", "zip_data", "zip_dir") or "dest" in tr[k][1:]
+        names = ERRNOS if (commit_call or ctx.thorough) else [ERRNOS[(k + len(w) + len(t) + int(present)) % len(ERRNOS)]]
+        for en in names:
+            data["faults_errno"][(k, en)] = srv.job(kind="write", writer=w, target=t, present=present, mode="fault", k=k, errno=en, workdir=wd)
     for k in range(n):
         if tr[k][0] == "write":
             data["fmtfails"][k] = srv.job(kind="write", writer=w, target=t, present=present, mode="fmtfail", k=k, workdir=wd)
@@ -334,7 +343,9 @@ def _corr_tmpdir(ctx, out, cfg):
         add_failure(out, "corr", "tmpdir= route: final state differs from the model", dict(inp, variant=cl), [mr["caller_file_kept"], mtext], [real_keeps, _canon_state(base["after"])], confirmed=False)
     else:
         out["nontrivial"].add((w, t, present, "tmpdir", cl))
-    ctx.notes.append(f"tmpdir= route follows the model variant cleanup={cl} (rmtree_dir = tmpdir_route_counter applies, unlink_file = tmpdir_route_repaired)") if present else None
+    if cl != "unlink_file":
+        add_failure(out, "corr", "tmpdir= route: the real trace is not that of THE model (programTmp … unlinkFile) but of the historical variant that "
+                    "removes the caller's directory (historical_tmpdir_route_removed_callers_dir)", dict(inp, variant=cl), "unlink_file", cl, confirmed=False)
 
 
 # --------------------------------------------------------------------------
@@ -423,6 +434,7 @@ def _spec_writes(ctx, out):
         runs = [("trace", None, data["base"])]
         runs += [("kill", k, r) for k, r in data["kills"].items()]
         runs += [("fault", k, r) for k, r in data["faults"].items()]
+        runs += [("fault", k, dict(r, _errno=en)) for (k, en), r in data.get("faults_errno", {}).items()]
         runs += [("fmtfail", k, r) for k, r in data["fmtfails"].items()]
         if data["natural"] is not None:
             runs.append(("natural", None, data["natural"]))
@@ -433,6 +445,9 @@ def _spec_writes(ctx, out):
             bump(out, "target", t)
             bump(out, "writer", w)
             inp = dict(kind="write", writer=w, target=t, present=present, mode=mode, k=k, at=(tr[k][0] if k is not None and k < len(tr) else None))
+            if real.get("_errno"):
+                inp["errno"] = real["_errno"]
+                bump(out, "fault_errno", real["_errno"])
             if mode in ("kill", "fault", "fmtfail") or (mode == "natural" and real.get("exc")):
                 out["nontrivial"].add((w, t, present, mode, k))
             for sig, what, exp, got in _judge(cfg, data, mode, k, real, out):
@@ -654,8 +669,9 @@ def _fine_corr(ctx, out):
         add_failure(out, "corr", "store after a kill inside a record write / after the re-run differs from the StoreWrite model (closest variant shown)", inp, exp, got, confirmed=False)
     if not bad:
         out["nontrivial"].add(("fine-resume", variant, n))
-    ctx.notes.append(f"DataStoreDirectory._write follows the StoreWrite variant {variant} (in_place: resume_same_store_fine_partial + _counter apply; "
-                     "atomic_md5_first: resume_same_store_fine applies at every crash point)")
+    if variant != "atomic_md5_first" and not bad:
+        add_failure(out, "corr", "DataStoreDirectory._write does not follow THE model (StoreWrite atomicMd5First: md5 then record, each by one rename) but the "
+                    "historical in-place variant (historical_store_write_in_place_witness says what that loses)", dict(variant=variant), "atomic_md5_first", variant, confirmed=False)
 
 
 def spec_check(ctx, budget):
@@ -730,12 +746,14 @@ def _one(ctx, w):
         if not idxs:
             return [], None
         k = idxs[w.get("nth", 0)] if len(idxs) > w.get("nth", 0) else idxs[0]
-        real = srv.job(kind="write", writer=cfg[0], target=cfg[1], present=cfg[2], mode=mode, k=k, workdir=wd)
+        real = srv.job(kind="write", writer=cfg[0], target=cfg[1], present=cfg[2], mode=mode, k=k, workdir=wd, errno=w.get("errno", "EIO"))
     elif mode == "natural":
         real = srv.job(kind="write", writer=cfg[0], target=cfg[1], present=cfg[2], mode="natural", workdir=wd)
     else:
         real = base
     inp = dict(kind="write", writer=cfg[0], target=cfg[1], present=cfg[2], mode=mode, k=k, at=w.get("at"))
+    if w.get("errno"):
+        inp["errno"] = w["errno"]
     return _judge(cfg, data, mode, k, real, None), inp
 
 
